@@ -231,16 +231,27 @@ TEXT = {
   "technique": "Lean 4 proof (induction/omega) + regenerated constants + differential correspondence",
  },
  "C11": {
-  "text": "Kernel-checked theorems over the Go-faithful model (wrapping int64, truncating big.Int.Quo) of the reward "
-          "arithmetic: rounded-down pro-rata shares never exceed the split amount (stake, sentinel, pillar/backers, "
-          "liquidity stake), the pillar formula stays within (delegation+producing per momentum) x expected momentums, "
-          "and for every uint64 epoch the regenerated emission tables give non-negative pieces that sum to at most the "
-          "network emission per coin; tied by regenerated tables and a differential stream that runs the real contract "
-          "functions on an in-memory storage.",
+  "text": "Kernel-checked theorems over Go-faithful models. Arithmetic (wrapping int64, truncating big.Int.Quo): rounded-down "
+          "pro-rata shares never exceed the split amount (stake, sentinel, pillar/backers, liquidity stake), the pillar "
+          "formula stays within (delegation+producing per momentum) x expected momentums, and for every uint64 epoch the "
+          "regenerated emission tables give non-negative pieces that sum to at most the network emission per coin. Epoch "
+          "cursor (checkAndPerformUpdateEpoch and the update*Rewards loops, defined by well-founded recursion): one Update "
+          "rewards exactly the consecutive epochs after the cursor that ended RewardTimeLimit before the frontier momentum "
+          "and stops only at an epoch not yet due; over any sequence of Update/credit/collect calls the rewarded epochs are "
+          "strictly increasing and - for the pillar/stake/sentinel loops and the post-spork liquidity method - exactly the "
+          "epochs the cursor passed, each once; iteration count bounded by elapsed epochs. Deposits: CollectReward mints "
+          "exactly the deposit to the caller, zeroes it, a second call is refused; over any call sequence minted + "
+          "collectable = initial + credited. Tied to the code by regenerated tables, a differential stream on the real "
+          "contract functions, and real short-epoch chains whose every Update/credit/collect is replayed through the model, "
+          "with per-epoch emission bounds recomputed in Lean, model-free monitors, and producer/follower comparison of "
+          "cursor, deposits and history entries.",
   "design_ref": "§3 C11",
-  "note": "Arithmetic part only (T1-T3). Epoch cursor (exactly once, in order), collect-once and node-independence are "
-          "not covered by this check yet.",
-  "technique": "Lean 4 proof (induction/omega/decide over generated tables) + regenerated constants + differential correspondence",
+  "note": "Credited amounts enter the cursor model as observed inputs (arithmetic proved separately); node-independence "
+          "of the consensus statistics is correspondence (followers synced one by one, in batches, with restarts), not a "
+          "theorem. Known finding F14: the origin/accelerator-table liquidity Update consumes one epoch without reward when "
+          "more than 10 epochs behind (partial theorem + negative witness; reproduced on a real chain by the stream).",
+  "technique": "Lean 4 proof (well-founded recursion, induction, omega, decide over generated tables) + regenerated constants + "
+               "differential correspondence on pure functions and on real multi-node chains + monitors",
  },
  "C20": {
   "text": "Kernel-checked theorems over the Go-faithful model of NewMomentumContent (sorted by address|height|hash bytes; any two "
